@@ -10,6 +10,11 @@ if [ "${1:-}" = "--clean" ]; then rm -rf "/tmp/vfm-${2:?name}"; exit 0; fi
 NAME="${1:?name}"; WT="$(realpath "${2:?worktree}")"; ID="${3:?check id}"; TIER="${4:-quick}"
 S="/tmp/vfm-$NAME"
 mkdir -p "$S/root/.work" "$S/root/evidence"
+# seed the scratch target with the main harness build: third-party crates (wasmi, rocksdb, blst, ...) are
+# reused, only the crates under the worktree path are recompiled
+if [ ! -d "$S/target" ] && [ -d /verif/harness/target/release ] && [ -z "${VF_NO_SEED_TARGET:-}" ]; then
+  mkdir -p "$S/target" && cp -a /verif/harness/target/release "$S/target/release" 2>/dev/null
+fi
 rsync -a --delete --exclude target --exclude fuzz/target /verif/harness/ "$S/harness/"
 sed -i "s#\"/repo/#\"$WT/#g" "$S/harness/Cargo.toml"
 rsync -a --delete /verif/replays/ "$S/root/replays/" 2>/dev/null
